@@ -49,6 +49,17 @@ CHECKS = {
          "float32/int32 note-array view and from_note_array are checked on concrete vectors with the real numpy only.",
     technique="symbolic execution of real code (CrossHair/z3) vs reference pedal model",
     ref="DESIGN.md §2 C14"),
+ "C06": dict(
+    text="Symbolic execution of adjust_time (<=3 tempo changes at symbolic ticks), load_performance_midi on in-memory mido files from a "
+         "shape catalogue (1-2 tracks, tempo events in any track, zero-velocity note-ons, control/program/meta events) with symbolic "
+         "delta times, and save_performance_midi(out=None) read by an independent reader and re-loaded (PerformedPart / Performance / "
+         "list / two tracks) with symbolic millisecond times; oracles: exact integer integral of the tempo map, pairing rule, id order, "
+         "nearest-tick condition |tick*mpq - 1e6*ppq*t| <= mpq/2.",
+    note="MIDI bytes (mido parser/writer) are not encoded: files are mido objects in memory. Pitches restricted to {60,62,64,127} because "
+         "the loader hashes them (enumeration). mpq/ppq concrete per instance; two-note round trips use integer or half-integer tick "
+         "factors, the general factor is covered for one note. Floats as reals.",
+    technique="symbolic execution of real code (CrossHair/z3) vs exact tempo-integral oracle",
+    ref="DESIGN.md §2 C06"),
 }
 NOT_APPLICABLE = {
  "C18": "float32/transcendental codec chain (log2, 2**x, mean/std, symbolic/symbolic division) over ~600 lines of vectorised numpy: non-linear with transcendental terms, z3 answers unknown; no sound bounded encoding within reach (DESIGN.md §2 C18)",
